@@ -127,6 +127,11 @@ pub fn run(mut config: Config) -> ::anyhow::Result<()> {
                     config.cleaning.torrent_cleaning_interval,
                 ));
 
+                #[cfg(aquatic_verif)]
+                if aquatic_common::verif::probe("udp/cleaning/loop") {
+                    return Ok(());
+                }
+
                 let export_full_scrape = config.scrape_exports.enable_scrape_exports
                     && counter % (config.scrape_exports.frequency.max(1)) == 0;
 
@@ -196,9 +201,17 @@ pub fn run(mut config: Config) -> ::anyhow::Result<()> {
             .name("signals".into())
             .spawn(move || {
                 for signal in &mut signals {
+                    #[cfg(aquatic_verif)]
+                    if aquatic_common::verif::probe("udp/signals/signal") {
+                        return Ok(());
+                    }
+
                     match signal {
                         SIGUSR1 => {
                             let _ = update_access_list(&config.access_list, &state.access_list);
+
+                            #[cfg(aquatic_verif)]
+                            aquatic_common::verif::note_reload();
                         }
                         _ => unreachable!(),
                     }
